@@ -21,7 +21,8 @@ import vlib, e2e, sync_e2e, scripted
 from props.c08 import gen as gen_c08, KINDS
 
 THEOREMS = ['C07_exit0_all_applied', 'C07_no_error_dropped', 'C07_failure_is_reported', 'C07_summary_is_census', 'C07_only_planned_changes', 'C07_only_planned_changes_unconditional',
-            'C07_async_ok_sound', 'C07_async_no_error_lost', 'C07_async_prefix', 'C07_async_ok_agrees_with_sync', 'C07_async_covered_by_sync']
+            'C07_async_ok_sound', 'C07_async_no_error_lost', 'C07_async_prefix', 'C07_async_ok_agrees_with_sync', 'C07_async_covered_by_sync',
+            'C07_spec_exit0_iff_all_ok', 'C07_spec_failure_is_last', 'C07_spec_runs_are_syncs']
 
 
 def hidden(sc, p):
@@ -259,6 +260,9 @@ def check(run):
             elif r['exit'] != 0 and not out['errors']:
                 run.fail('C07: exit %s without an error message (spec run)' % r['exit'], {'family': 'E', 'spec': spec, 'env': env})
             shutil.rmtree(root, ignore_errors=True)
+        # ---- F: generated specs with 1-4 syncs over shared roots against Model/SpecRun.v (exit status, which syncs ran) ----
+        import spec_e2e
+        spec_e2e.family(run, binary, jbin, base, 40 if quick else 2500, rng, 'C07')
     finally:
         shutil.rmtree(base, ignore_errors=True)
     return run.finish(search=None)
